@@ -157,6 +157,11 @@ fn u2_one(layouts: &LayoutSet, rng: &mut StdRng, b: &Value, only: &[&'static str
         let sec = h["sec"].as_str().unwrap();
         on_send.push(match h["o"].as_str().unwrap() {
             "good" => bb.batches[sec_idx(sec)].clone(),
+            // a players list whose FOLLOW-UP datagram is not a players datagram (another section's kind, an unknown kind) is a
+            // malformed players section too (D8: the fault-free run fails on it with a non-timeout error)
+            "bad" if sec == "players" && bb.batches[2].len() >= 2 && rng.gen_bool(0.5) => {
+                vec![bb.batches[2][0].clone(), if rng.gen_bool(0.5) { vec![0x80, 0, 0, 0, 1] } else { vec![0x80, 0, 0, 0, 9, 1, 2] }]
+            }
             "bad" => vec![vec![0x80, 0, 0, 0, 9, 1, 2]], // unknown reply kind
             _ => vec![],
         });
